@@ -58,7 +58,8 @@ Inductive op :=
 | OGeom (w : positive)                     (* tickit_window_set_geometry to a different size: GEOMCHANGE runs on w *)
 | ONop
 (* not client calls: the reference a dispatch frame of the library takes on the window it works on, and its
-   release.  They are in the trace so that a discipline can tell the client's references from the library's *)
+   release.  The dispatch functions write them into the trace, so that a discipline can tell the client's
+   references from the library's *)
 | OFrameRef (w : positive) | OFrameUnref (w : positive).
 
 Record handler := mkH { h_id : Z; h_key : bool; h_mask : Z; h_ret : bool; h_actions : list op }.
@@ -818,7 +819,7 @@ Fixpoint run_op (fuel : nat) (o : op) {struct fuel} : M unit :=
   match fuel with
   | O => nofuel
   | S f =>
-    (match o with ONop => ret tt | _ => log_op o end) ;;;
+    (match o with ONop | OFrameRef _ | OFrameUnref _ => ret tt | _ => log_op o end) ;;;
     match o with
     | ONew p hid low rp st => window_new f p hid low rp st ;;; ret tt
     | ORef w => window_ref w
@@ -839,8 +840,7 @@ Fixpoint run_op (fuel : nat) (o : op) {struct fuel} : M unit :=
     | OUnbind w id => upd w (fun c => set_hs c (filter (fun hd => negb (h_id hd =? id)) (w_hs c)))
     | OGeom w => getw w ;;; ret tt
     | ONop => ret tt
-    | OFrameRef w => window_ref w
-    | OFrameUnref w => unref f w
+    | OFrameRef _ | OFrameUnref _ => ret tt      (* not calls: in a script they do nothing and leave no trace *)
     end
   end
 with run_ops (fuel : nat) (l : list op) {struct fuel} : M unit :=
@@ -891,7 +891,7 @@ with handle_key (fuel : nat) (w : positive) {struct fuel} : M bool :=
     c <- getw w ;;
     if negb (w_visible c) then ret false
     else
-      run_op f (OFrameRef w) ;;;
+      log_op (OFrameRef w) ;;; window_ref w ;;;
       c1 <- getw w ;;
       rs <- (match w_first c1 with
              | Some fc =>
@@ -901,26 +901,26 @@ with handle_key (fuel : nat) (w : positive) {struct fuel} : M bool :=
              end) ;;
       let r1 := fst rs in
       let stealer : ptr := if v_events_asis V then None else snd rs in   (* only compared, never dereferenced *)
-      (if r1 then (run_op f (OFrameUnref w) ;;; ret true)
+      (if r1 then (log_op (OFrameUnref w) ;;; unref f w ;;; ret true)
        else
          c2 <- getw w ;;
          r2 <- (match w_focus c2 with
                 | Some fc => if ptr_eqb (Some fc) stealer then ret false else handle_key f fc
                 | None => ret false
                 end) ;;
-         if r2 then (run_op f (OFrameUnref w) ;;; ret true)
+         if r2 then (log_op (OFrameUnref w) ;;; unref f w ;;; ret true)
          else
            c3 <- getw w ;;
            r3 <- run_key_handlers f w (w_hs c3) ;;
-           if r3 then (run_op f (OFrameUnref w) ;;; ret true)
+           if r3 then (log_op (OFrameUnref w) ;;; unref f w ;;; ret true)
            else if v_events_asis V then
              c4 <- getw w ;;
              r4 <- key_kids_asis f w (w_first c4) ;;
-             run_op f (OFrameUnref w) ;;; ret r4
+             log_op (OFrameUnref w) ;;; unref f w ;;; ret r4
            else
              kids <- copy_children f w ;;
              r4 <- key_kids f w stealer kids ;;
-             run_op f (OFrameUnref w) ;;; ret r4)
+             log_op (OFrameUnref w) ;;; unref f w ;;; ret r4)
   end
 with key_kids (fuel : nat) (w : positive) (stealer : ptr) (kids : list positive) {struct fuel} : M bool :=
   match fuel with
@@ -961,26 +961,26 @@ with handle_mouse (fuel : nat) (w : positive) (t : mtype) (inside unset : bool) 
     c <- getw w ;;
     if negb (w_visible c) then ret None
     else
-      run_op f (OFrameRef w) ;;;
+      log_op (OFrameRef w) ;;; window_ref w ;;;
       if v_events_asis V then
         c1 <- getw w ;;
         r <- mouse_kids_asis f w (w_first c1) t inside unset ;;
         match r with
-        | Some _ => run_op f (OFrameUnref w) ;;; ret r
+        | Some _ => log_op (OFrameUnref w) ;;; unref f w ;;; ret r
         | None =>
           c2 <- getw w ;;
           hr <- run_mouse_handlers f w (w_hs c2) t unset ;;
-          run_op f (OFrameUnref w) ;;; ret (if hr then Some w else None)
+          log_op (OFrameUnref w) ;;; unref f w ;;; ret (if hr then Some w else None)
         end
       else
         kids <- copy_children f w ;;
         r <- mouse_kids f w kids t inside unset ;;
         match r with
-        | Some _ => run_op f (OFrameUnref w) ;;; ret r
+        | Some _ => log_op (OFrameUnref w) ;;; unref f w ;;; ret r
         | None =>
           c2 <- getw w ;;
           hr <- run_mouse_handlers f w (w_hs c2) t unset ;;
-          run_op f (OFrameUnref w) ;;; ret (if hr then Some w else None)
+          log_op (OFrameUnref w) ;;; unref f w ;;; ret (if hr then Some w else None)
         end
   end
 with mouse_kids (fuel : nat) (w : positive) (kids : list positive) (t : mtype) (inside unset : bool) {struct fuel} : M ptr :=
@@ -1019,7 +1019,7 @@ with ref_up (fuel : nat) (w : ptr) {struct fuel} : M (list positive) :=
   | S f =>
     match w with
     | None => ret []
-    | Some a => run_op f (OFrameRef a) ;;; c <- getw a ;; l <- ref_up f (w_parent c) ;; ret (a :: l)
+    | Some a => log_op (OFrameRef a) ;;; window_ref a ;;; c <- getw a ;; l <- ref_up f (w_parent c) ;; ret (a :: l)
     end
   end
 with unref_list (fuel : nat) (l : list positive) {struct fuel} : M unit :=
@@ -1028,7 +1028,7 @@ with unref_list (fuel : nat) (l : list positive) {struct fuel} : M unit :=
   | S f =>
     match l with
     | [] => ret tt
-    | a :: l' => run_op f (OFrameUnref a) ;;; unref_list f l'
+    | a :: l' => log_op (OFrameUnref a) ;;; unref f a ;;; unref_list f l'
     end
   end
 with on_term_mouse (fuel : nat) (t : mtype) {struct fuel} : M unit :=
@@ -1036,7 +1036,7 @@ with on_term_mouse (fuel : nat) (t : mtype) {struct fuel} : M unit :=
   | O => nofuel
   | S f =>
     let root := 1%positive in
-    (if v_events_asis V then ret tt else run_op f (OFrameRef root)) ;;;
+    (if v_events_asis V then ret tt else log_op (OFrameRef root) ;;; window_ref root) ;;;
     r <- getr root ;;
     (match t with
      | MPress => setr root (set_rpress r (Some true))
@@ -1093,7 +1093,7 @@ with on_term_mouse (fuel : nat) (t : mtype) {struct fuel} : M unit :=
        end
      | _ => ret tt
      end) ;;;
-    (if v_events_asis V then ret tt else run_op f (OFrameUnref root))
+    (if v_events_asis V then ret tt else log_op (OFrameUnref root) ;;; unref f root)
   end.
 
 (* ---- whole scripts ------------------------------------------------------------------- *)
